@@ -179,6 +179,103 @@ def hf2Handler (fn : String) : Option Handler :=
           | _ => "fail unparsable-output" }
   | _ => none
 
+/-! ## 3-D heightfield grid lookups -/
+
+def phf3 : P (HF3 Float) := do
+  let nr ← pnat; let nc ← pnat
+  let hs ← prep pf (nr * nc)
+  let st ← prep pnat ((nr - 1) * (nc - 1))
+  let sc ← pv3
+  pure ⟨nr, nc, hs.toArray, st.toArray, sc⟩
+
+def hf3Domain (h : HF3 Float) : Bool :=
+  h.nr ≥ 2 && h.nc ≥ 2 && h.hs.size == h.nr * h.nc && h.st.size == (h.nr - 1) * (h.nc - 1) && h.hs.all FloatIO.isFinite &&
+  finite3 h.scale && h.scale.x > 0 && h.scale.y > 0 && h.scale.z > 0
+
+/-- exact grid line `k` of an axis with `n` cells and scale `s` -/
+def gl (s : Rat) (n k : Nat) : Rat := s * (-(1 / 2 : Rat) + (k : Rat) / (n : Rat))
+
+def hf3Handler (fn : String) : Option Handler :=
+  match fn with
+  | "hf3_cell" => some {
+      model := fun a => run (do let h ← phf3; let p ← pv3; pend
+                                pure (match h.cellAtPoint p with | none => "none" | some (i, j) => s!"some {i} {j}")) a
+      oracle := fun a o => match run (do let h ← phf3; let p ← pv3; pend; pure (h, p)) a with
+        | none => "skip bad-args"
+        | some (h, p) =>
+          if !(hf3Domain h && finite3 p) then "skip outside-domain" else
+          let sx := q h.scale.x; let sz := q h.scale.z; let tx := (1 + rabs sx) / 1000000000; let tz := (1 + rabs sz) / 1000000000
+          let x := q p.x; let z := q p.z
+          match o with
+          | ["none"] => if -sx / 2 + tx ≤ x && x ≤ sx / 2 - tx && -sz / 2 + tz ≤ z && z ≤ sz / 2 - tz then "fail none-for-a-point-above-the-heightfield" else "pass"
+          | ["some", ti, tj] => match ti.toNat?, tj.toNat? with
+            | some i, some j =>
+              if i ≥ h.nrows || j ≥ h.ncols then s!"fail cell-index-out-of-range {i} {j}"
+              else if gl sx h.ncols j - tx ≤ x && x ≤ gl sx h.ncols (j + 1) + tx && gl sz h.nrows i - tz ≤ z && z ≤ gl sz h.nrows (i + 1) + tz then "pass"
+              else s!"fail point-not-above-reported-cell {i} {j}"
+            | _, _ => "fail unparsable-output"
+          | _ => "fail unparsable-output" }
+  | "hf3_range" => some {
+      model := fun a => run (do let h ← phf3; let b ← pbox3; pend
+                                let r := h.unclampedRange b; pure s!"{r.1.1} {r.1.2} {r.2.1} {r.2.2}") a
+      oracle := fun a o => match run (do let h ← phf3; let b ← pbox3; pend; pure (h, b)) a with
+        | none => "skip bad-args"
+        | some (h, b) =>
+          if !(hf3Domain h && valid3 (qb3 b) && finite3 b.mins && finite3 b.maxs) then "skip outside-domain" else
+          let sx := q h.scale.x; let sz := q h.scale.z; let tx := (1 + rabs sx) / 1000000000; let tz := (1 + rabs sz) / 1000000000
+          let bb := qb3 b
+          match o.map String.toInt? with
+          | [some si, some ei, some sj, some ej] =>
+            let badj := (List.range h.ncols).find? fun j => bb.mins.x < gl sx h.ncols (j + 1) - tx && gl sx h.ncols j + tx < bb.maxs.x && !(sj ≤ (j : Int) && (j : Int) < ej)
+            let badi := (List.range h.nrows).find? fun i => bb.mins.z < gl sz h.nrows (i + 1) - tz && gl sz h.nrows i + tz < bb.maxs.z && !(si ≤ (i : Int) && (i : Int) < ei)
+            match badi, badj with
+            | some i, _ => s!"fail overlapping-row-outside-range {i}"
+            | _, some j => s!"fail overlapping-column-outside-range {j}"
+            | none, none => "pass"
+          | _ => "fail unparsable-output" }
+  | "hf3_elems" => some {
+      model := fun a => run (do let h ← phf3; let b ← pbox3; pend
+                                pure (" ".intercalate ("ids" :: (h.mapElements b).map toString))) a
+      oracle := fun a o => match run (do let h ← phf3; let b ← pbox3; pend; pure (h, b)) a with
+        | none => "skip bad-args"
+        | some (h, b) =>
+          if !(hf3Domain h && valid3 (qb3 b) && finite3 b.mins && finite3 b.maxs) then "skip outside-domain" else
+          let sx := q h.scale.x; let sy := q h.scale.y; let sz := q h.scale.z
+          let tx := (1 + rabs sx) / 1000000000; let ty := (1 + rabs sy) / 1000000000; let tz := (1 + rabs sz) / 1000000000
+          let bb := qb3 b
+          let hq := h.hs.map q
+          let ys (i j : Nat) : List Rat := [hq.getD (i + j * h.nr) 0, hq.getD (i + 1 + j * h.nr) 0, hq.getD (i + (j + 1) * h.nr) 0, hq.getD (i + 1 + (j + 1) * h.nr) 0].map (sy * ·)
+          let lo (l : List Rat) : Rat := l.foldl rmin (l.headD 0)
+          let hi (l : List Rat) : Rat := l.foldl rmax (l.headD 0)
+          let stat (i j : Nat) : Nat := h.st.getD (i + j * h.nrows) 6
+          -- the triangles of the cells whose box (cell rectangle x ordinate range of the four corners) clearly overlaps the box
+          let cells := (List.range h.ncols).flatMap fun j => (List.range h.nrows).map fun i => (i, j)
+          match o with
+          | "ids" :: ts => match ts.mapM String.toNat? with
+            | none => "fail unparsable-output"
+            | some ids =>
+              let clear (i j : Nat) : Bool :=
+                bb.mins.x < gl sx h.ncols (j + 1) - tx && gl sx h.ncols j + tx < bb.maxs.x &&
+                bb.mins.z < gl sz h.nrows (i + 1) - tz && gl sz h.nrows i + tz < bb.maxs.z &&
+                bb.mins.y + ty ≤ hi (ys i j) && lo (ys i j) ≤ bb.maxs.y - ty
+              let loose (i j : Nat) : Bool :=
+                bb.mins.x ≤ gl sx h.ncols (j + 1) + tx && gl sx h.ncols j - tx ≤ bb.maxs.x &&
+                bb.mins.z ≤ gl sz h.nrows (i + 1) + tz && gl sz h.nrows i - tz ≤ bb.maxs.z &&
+                bb.mins.y - ty ≤ hi (ys i j) && lo (ys i j) ≤ bb.maxs.y + ty
+              let missed := cells.find? fun (i, j) => clear i j &&
+                ((stat i j / 2 % 2 == 0 && !ids.contains (h.triId i j true)) || (stat i j / 4 % 2 == 0 && !ids.contains (h.triId i j false)))
+              let wrong := ids.find? fun t =>
+                let left := t < h.nrows * h.ncols
+                let c := if left then t else t - h.nrows * h.ncols
+                let j := c / h.nrows; let i := c % h.nrows
+                !(c < h.nrows * h.ncols && loose i j && (if left then stat i j / 2 % 2 == 0 else stat i j / 4 % 2 == 0))
+              match missed, wrong with
+              | some (i, j), _ => s!"fail overlapping-cell-triangle-not-reported {i} {j}"
+              | _, some t => s!"fail reported-triangle-does-not-overlap-or-removed {t}"
+              | none, none => "pass"
+          | _ => "fail unparsable-output" }
+  | _ => none
+
 def handler3 (fn : String) : Option Handler :=
   match fn with
   | "dv3_visit" => some {
@@ -221,6 +318,6 @@ def handler3 (fn : String) : Option Handler :=
         | some (ab, best, x) =>
           if !((ab :: x).all fun b => valid2 (qb2 b)) then "skip invalid-box" else
           dvOracle (x.map fun u => boxDist2sq (qb2 u) (qb2 ab)) best o }
-  | _ => hf2Handler fn
+  | _ => (hf2Handler fn).orElse fun _ => hf3Handler fn
 
 end C07
